@@ -125,6 +125,7 @@ type scanRemoval struct {
 	box, id string
 	at      time.Time
 	err     error
+	seq     int64 // global event sequence number
 }
 
 func (s *scanStore) VisitMailboxes(f func([]storage.Message) bool) error {
@@ -138,7 +139,8 @@ func (s *scanStore) VisitMailboxes(f func([]storage.Message) bool) error {
 
 func (s *scanStore) RemoveMessage(mailbox, id string) error {
 	err := s.Store.RemoveMessage(mailbox, id)
-	s.removals = append(s.removals, scanRemoval{box: mailbox, id: id, at: time.Now(), err: err})
+	*s.seq++
+	s.removals = append(s.removals, scanRemoval{box: mailbox, id: id, at: time.Now(), err: err, seq: *s.seq})
 	return err
 }
 
@@ -225,6 +227,7 @@ func runC12(c *Ctx, cs Case) {
 	}
 
 	var startReturned, joinReturned, cancelAt time.Time
+	var cancelSeq int64
 	switch k.Mode {
 	case "scan":
 		scanDone := false
@@ -237,6 +240,8 @@ func runC12(c *Ctx, cs Case) {
 		if k.CancelAt < k.RunFor/2 {
 			simrt.Sleep(k.CancelAt)
 			cancelAt = time.Now()
+			seq++
+			cancelSeq = seq
 			cancel()
 			c.Stat("fault.cancel_during_scan_or_wait", 1)
 			// the scan must end within a second of simulated time
@@ -265,6 +270,8 @@ func runC12(c *Ctx, cs Case) {
 		}
 		simrt.Sleep(k.CancelAt)
 		cancelAt = time.Now()
+		seq++
+		cancelSeq = seq
 		cancel()
 		c.Stat("fault.cancel_during_scan_or_wait", 1)
 		simrt.Sleep(time.Second)
@@ -303,6 +310,20 @@ func runC12(c *Ctx, cs Case) {
 		}
 		if !joinReturned.IsZero() && rm.at.After(joinReturned) {
 			c.Failf("deletion-after-join", "the scanner removed %s/%s at +%v, after Join had returned at +%v", rm.box, rm.id, rm.at.Sub(start), joinReturned.Sub(start))
+		}
+	}
+	// (1b) "stops promptly": with a pause between mailboxes (RetentionSleep > 0) a scan that is
+	// told to stop may finish the mailbox it is in, and one more if its pause ended at that very
+	// instant - it does not go on through the store
+	if cancelSeq > 0 && k.Sleep > 0 {
+		after := map[string]bool{}
+		for _, rm := range ss.removals {
+			if rm.seq > cancelSeq {
+				after[rm.box] = true
+			}
+		}
+		if len(after) > 2 {
+			c.Failf("scan-goes-on-after-cancel", "after shutdown was requested the scanner still removed mail in %d different mailboxes %v (pause between mailboxes: %v)", len(after), sortedKeys(after), k.Sleep)
 		}
 	}
 	if k.Period <= 0 && len(ss.scans) > 0 {
